@@ -10,19 +10,11 @@ import (
 
 	"pgregory.net/rapid"
 
-	abci "github.com/cometbft/cometbft/abci/types"
-
-	sdk "github.com/cosmos/cosmos-sdk/types"
-
 	clienttypes "github.com/cosmos/ibc-go/v11/modules/core/02-client/types"
 	connectiontypes "github.com/cosmos/ibc-go/v11/modules/core/03-connection/types"
 	channeltypes "github.com/cosmos/ibc-go/v11/modules/core/04-channel/types"
-	commitmenttypes "github.com/cosmos/ibc-go/v11/modules/core/23-commitment/types"
 	host "github.com/cosmos/ibc-go/v11/modules/core/24-host"
-	ibctm "github.com/cosmos/ibc-go/v11/modules/light-clients/07-tendermint"
-	ibctesting "github.com/cosmos/ibc-go/v11/testing"
 
-	"github.com/cosmos/ibc-go/v11/modules/apps/callbacks/verifx/sim"
 	"github.com/cosmos/ibc-go/v11/modules/apps/callbacks/verifx/vx"
 )
 
@@ -234,463 +226,5 @@ func TestC15(t *testing.T) {
 		MinNTFrac: 0.4,
 		Gen:       genC15,
 		Run:       runC15,
-	})
-}
-
-// =====================================================================================
-// stateful part: histories of creations, including failing attempts
-// =====================================================================================
-
-type c15Op struct {
-	K    string // client | solo | conninit | conntry | connfinish | chaninit | chantry | combo
-	P    int    // path slot 0..2
-	Side int    // 0: chain 0, 1: chain 1
-	Bad  int    // 0 = honest attempt; >0 selects a way to make it fail
-}
-
-type c15Hist struct {
-	Base [3]uint64 // initial next client / connection / channel sequence on both chains
-	Ops  []c15Op
-}
-
-type c15End struct{ Client, Conn, Chan string }
-
-type c15World struct {
-	w    *sim.World
-	ends [2][2]c15End
-	seen map[string]int // "kind/chain/id" -> step of first appearance
-	t    rapid.TB
-	rec  *vx.Case
-	// history bookkeeping
-	outcomes []bool // per creating tx: true = success with >=1 id
-	ids      int
-}
-
-func genC15Hist(t *rapid.T) c15Hist {
-	var h c15Hist
-	bases := []uint64{0, 0, 1, 9, 10, 99, 1 << 32, 1<<63 - 2, 1 << 63, 9999999999999999990, 10000000000000000000, math.MaxUint64 - 1000}
-	for i := range h.Base {
-		h.Base[i] = rapid.SampledFrom(bases).Draw(t, "base")
-	}
-	kinds := []string{"client", "client", "client", "solo", "conninit", "conninit", "conntry", "conntry", "connfinish", "chaninit", "chaninit", "chantry", "chantry", "combo", "combo"}
-	n := rapid.IntRange(8, 24).Draw(t, "nops")
-	for i := 0; i < n; i++ {
-		op := c15Op{K: rapid.SampledFrom(kinds).Draw(t, "k"), P: rapid.IntRange(0, 1).Draw(t, "p"), Side: rapid.IntRange(0, 1).Draw(t, "side")}
-		if rapid.IntRange(0, 3).Draw(t, "bad") == 0 {
-			op.Bad = rapid.IntRange(1, 3).Draw(t, "badkind")
-		}
-		h.Ops = append(h.Ops, op)
-	}
-	return h
-}
-
-// ---- message builders ------------------------------------------------------------------
-
-func (x *c15World) signer(chain int) string { return x.w.Addr(chain, 0).String() }
-
-func (x *c15World) msgCreateTM(chain int, bad int) sdk.Msg {
-	w := x.w
-	other := 1 - chain
-	w.Block(other, 1)
-	cp := w.Chains[other]
-	height, ok := cp.LatestCommittedHeader.GetHeight().(clienttypes.Height)
-	if !ok {
-		vx.Harnessf("no committed header height")
-	}
-	cfg := ibctesting.NewTendermintConfig()
-	cs := ibctm.NewClientState(cp.ChainID, cfg.TrustLevel, cfg.TrustingPeriod, cfg.UnbondingPeriod, cfg.MaxClockDrift, height, commitmenttypes.GetSDKSpecs(), ibctesting.UpgradePath)
-	cons := cp.LatestCommittedHeader.ConsensusState()
-	switch bad {
-	case 1:
-		cs.TrustingPeriod = cs.UnbondingPeriod * 2 // fails validation
-	case 2:
-		cs.ChainId = ""
-	case 3:
-		cs.LatestHeight = clienttypes.ZeroHeight()
-	}
-	msg, err := clienttypes.NewMsgCreateClient(cs, cons, x.signer(chain))
-	if err != nil {
-		vx.Harnessf("NewMsgCreateClient: %v", err)
-	}
-	return msg
-}
-
-func (x *c15World) msgCreateSolo(chain int, bad int) sdk.Msg {
-	sm := ibctesting.NewSolomachine(x.w.T, x.w.Chains[chain].Codec, "solomachine", "", 1)
-	cs, cons := sm.ClientState(), sm.ConsensusState()
-	if bad != 0 {
-		cs.Sequence = 0 // invalid
-	}
-	msg, err := clienttypes.NewMsgCreateClient(cs, cons, x.signer(chain))
-	if err != nil {
-		vx.Harnessf("NewMsgCreateClient(solo): %v", err)
-	}
-	return msg
-}
-
-func (x *c15World) msgConnInit(p, side, bad int) sdk.Msg {
-	e, cp := x.ends[p][side], x.ends[p][1-side]
-	client, cpClient := e.Client, cp.Client
-	if cpClient == "" {
-		cpClient = "07-tendermint-0"
-	}
-	switch bad {
-	case 1:
-		client = "07-tendermint-77777" // does not exist
-	case 2:
-		client = "" // stateless failure
-	case 3:
-		client = "09-localhost-1"
-	}
-	return connectiontypes.NewMsgConnectionOpenInit(client, cpClient, x.w.Chains[1-side].GetPrefix(), ibctesting.DefaultOpenInitVersion, 0, x.signer(side))
-}
-
-func (x *c15World) msgConnTry(p, side, bad int) sdk.Msg {
-	w := x.w
-	e, cp := x.ends[p][side], x.ends[p][1-side]
-	cpConn := cp.Conn
-	if cpConn == "" {
-		cpConn = "connection-0"
-	}
-	var proof []byte
-	ph := clienttypes.NewHeight(1, 2)
-	if e.Client != "" && strings.HasPrefix(e.Client, "07-tendermint-") {
-		w.UpdateClient(side, e.Client, 1-side, 0)
-		proof, ph = w.Chains[1-side].QueryProof(host.ConnectionKey(cpConn))
-	}
-	if len(proof) == 0 {
-		proof = []byte("no proof")
-	}
-	client := e.Client
-	cpClient := cp.Client
-	switch bad {
-	case 1:
-		proof = append([]byte{}, proof...)
-		proof[len(proof)/2] ^= 0x55
-	case 2:
-		cpConn = "connection-424242"
-	case 3:
-		cpClient = "07-tendermint-31337"
-	}
-	return connectiontypes.NewMsgConnectionOpenTry(client, cpConn, cpClient, w.Chains[1-side].GetPrefix(), []*connectiontypes.Version{ibctesting.ConnectionVersion}, 0, proof, ph, x.signer(side))
-}
-
-func (x *c15World) msgChanInit(p, side, bad int) sdk.Msg {
-	e := x.ends[p][side]
-	conn, port := e.Conn, ibctesting.MockPort
-	switch bad {
-	case 1:
-		conn = "connection-555555"
-	case 2:
-		port = "nosuchport"
-	case 3:
-		conn = ""
-	}
-	return channeltypes.NewMsgChannelOpenInit(port, ibctesting.DefaultChannelVersion, channeltypes.UNORDERED, []string{conn}, ibctesting.MockPort, x.signer(side))
-}
-
-func (x *c15World) msgChanTry(p, side, bad int) sdk.Msg {
-	w := x.w
-	e, cp := x.ends[p][side], x.ends[p][1-side]
-	cpChan := cp.Chan
-	if cpChan == "" {
-		cpChan = "channel-0"
-	}
-	var proof []byte
-	ph := clienttypes.NewHeight(1, 2)
-	if e.Client != "" && strings.HasPrefix(e.Client, "07-tendermint-") {
-		w.UpdateClient(side, e.Client, 1-side, 0)
-		proof, ph = w.Chains[1-side].QueryProof(host.ChannelKey(ibctesting.MockPort, cpChan))
-	}
-	if len(proof) == 0 {
-		proof = []byte("no proof")
-	}
-	conn := e.Conn
-	switch bad {
-	case 1:
-		proof = append([]byte{}, proof...)
-		proof[len(proof)/2] ^= 0x55
-	case 2:
-		cpChan = "channel-434343"
-	case 3:
-		conn = "connection-565656"
-	}
-	return channeltypes.NewMsgChannelOpenTry(ibctesting.MockPort, ibctesting.DefaultChannelVersion, channeltypes.UNORDERED, []string{conn}, ibctesting.MockPort, cpChan, ibctesting.DefaultChannelVersion, proof, ph, x.signer(side))
-}
-
-// connFinish drives ack + confirm for path p when `side` holds an INIT end whose counterparty
-// is TRYOPEN (no identifiers are generated by these steps).
-func (x *c15World) connFinish(p, side int) {
-	w := x.w
-	e, cp := x.ends[p][side], x.ends[p][1-side]
-	if e.Conn == "" || cp.Conn == "" || e.Client == "" || cp.Client == "" {
-		return
-	}
-	w.UpdateClient(side, e.Client, 1-side, 0)
-	proof, ph := w.Chains[1-side].QueryProof(host.ConnectionKey(cp.Conn))
-	res := w.Deliver(side, 0, connectiontypes.NewMsgConnectionOpenAck(e.Conn, cp.Conn, proof, ph, ibctesting.ConnectionVersion, x.signer(side)))
-	if !res.OK {
-		x.rec.Add("connfinish_failed", 1)
-		return
-	}
-	w.UpdateClient(1-side, cp.Client, side, 0)
-	proof, ph = w.Chains[side].QueryProof(host.ConnectionKey(e.Conn))
-	res = w.Deliver(1-side, 0, connectiontypes.NewMsgConnectionOpenConfirm(cp.Conn, proof, ph, x.signer(1-side)))
-	if res.OK {
-		x.rec.Add("connections_opened", 1)
-	} else {
-		x.rec.Add("connfinish_failed", 1)
-	}
-}
-
-// ---- honest prerequisites (every creation they perform is judged like any other) -------------
-
-func (x *c15World) ensureClient(step, p, s int) {
-	if x.ends[p][s].Client == "" {
-		ids := x.deliver(step, s, "create-client(prereq)", x.msgCreateTM(s, 0))
-		x.ends[p][s].Client = c15First(ids, "client")
-	}
-}
-
-func (x *c15World) connOpen(p, s int) bool {
-	e := x.ends[p][s]
-	if e.Conn == "" {
-		return false
-	}
-	c, found := x.w.App(s).IBCKeeper.ConnectionKeeper.GetConnection(x.w.Ctx(s), e.Conn)
-	return found && c.State == connectiontypes.OPEN
-}
-
-func (x *c15World) ensureConnInit(step, p, s int) {
-	x.ensureClient(step, p, 0)
-	x.ensureClient(step, p, 1)
-	if x.ends[p][s].Conn == "" {
-		ids := x.deliver(step, s, "conn-open-init(prereq)", x.msgConnInit(p, s, 0))
-		x.ends[p][s].Conn = c15First(ids, "connection")
-	}
-}
-
-// ensureConnOpen runs a full honest handshake for path p unless both ends are OPEN.
-func (x *c15World) ensureConnOpen(step, p int) bool {
-	if x.connOpen(p, 0) && x.connOpen(p, 1) {
-		return true
-	}
-	x.ensureClient(step, p, 0)
-	x.ensureClient(step, p, 1)
-	ids := x.deliver(step, 0, "conn-open-init(prereq)", x.msgConnInit(p, 0, 0))
-	if c := c15First(ids, "connection"); c != "" {
-		x.ends[p][0].Conn = c
-	} else {
-		return false
-	}
-	ids = x.deliver(step, 1, "conn-open-try(prereq)", x.msgConnTry(p, 1, 0))
-	if c := c15First(ids, "connection"); c != "" {
-		x.ends[p][1].Conn = c
-	} else {
-		return false
-	}
-	x.connFinish(p, 0)
-	return x.connOpen(p, 0) && x.connOpen(p, 1)
-}
-
-// ---- observation -----------------------------------------------------------------------------
-
-type c15ID struct{ kind, id string }
-
-func c15IDsFromEvents(evs []abci.Event) []c15ID {
-	var out []c15ID
-	for _, ev := range evs {
-		var kind, key string
-		switch ev.Type {
-		case clienttypes.EventTypeCreateClient:
-			kind, key = "client", clienttypes.AttributeKeyClientID
-		case connectiontypes.EventTypeConnectionOpenInit, connectiontypes.EventTypeConnectionOpenTry:
-			kind, key = "connection", connectiontypes.AttributeKeyConnectionID
-		case channeltypes.EventTypeChannelOpenInit, channeltypes.EventTypeChannelOpenTry:
-			kind, key = "channel", channeltypes.AttributeKeyChannelID
-		default:
-			continue
-		}
-		for _, a := range ev.Attributes {
-			if a.Key == key {
-				out = append(out, c15ID{kind, a.Value})
-			}
-		}
-	}
-	return out
-}
-
-// deliver sends one creating transaction and judges the identifiers it returned.
-func (x *c15World) deliver(step int, chain int, what string, msgs ...sdk.Msg) []c15ID {
-	const id = "C15"
-	res := x.w.Deliver(chain, 0, msgs...)
-	if !res.OK {
-		x.outcomes = append(x.outcomes, false)
-		x.rec.Add("creations_failed", 1)
-		return nil
-	}
-	ids := c15IDsFromEvents(res.Events)
-	x.outcomes = append(x.outcomes, len(ids) > 0)
-	x.rec.Add("creations_ok", 1)
-	if len(ids) < len(msgs) {
-		vx.Harnessf("step %d (%s): %d creating messages succeeded but only %d identifiers found in events", step, what, len(msgs), len(ids))
-	}
-	for _, g := range ids {
-		x.ids++
-		k := fmt.Sprintf("%s/chain%d/%s", g.kind, chain, g.id)
-		if first, dup := x.seen[k]; dup {
-			vx.Violatef(x.t, x.rec, id, g.kind+"-id-reused", "step %d (%s): chain %d returned %s identifier %q which step %d already returned", step, what, chain, g.kind, g.id, first)
-		}
-		x.seen[k] = step
-		var verr error
-		var fmtOK bool
-		switch g.kind {
-		case "client":
-			verr, fmtOK = host.ClientIdentifierValidator(g.id), clienttypes.IsValidClientID(g.id)
-			if _, found := x.w.App(chain).IBCKeeper.ClientKeeper.GetClientState(x.w.Ctx(chain), g.id); !found {
-				vx.Harnessf("step %d: created client %q not in store", step, g.id)
-			}
-		case "connection":
-			verr, fmtOK = host.ConnectionIdentifierValidator(g.id), connectiontypes.IsValidConnectionID(g.id)
-		case "channel":
-			verr, fmtOK = host.ChannelIdentifierValidator(g.id), channeltypes.IsValidChannelID(g.id)
-		}
-		if verr != nil || !fmtOK {
-			vx.Violatef(x.t, x.rec, id, g.kind+"-generated-id-invalid", "step %d (%s): chain %d generated %s identifier %q which fails validation (validator: %v, format ok: %v)", step, what, chain, g.kind, g.id, verr, fmtOK)
-		}
-		if len(g.id) >= 28 {
-			x.rec.Class("generated-19/20-digit-id")
-		}
-	}
-	return ids
-}
-
-func c15First(ids []c15ID, kind string) string {
-	for _, g := range ids {
-		if g.kind == kind {
-			return g.id
-		}
-	}
-	return ""
-}
-
-func runC15Hist(outer *testing.T) func(rapid.TB, c15Hist, *vx.Case) {
-	return func(t rapid.TB, h c15Hist, rec *vx.Case) {
-		w := sim.NewWorld(outer, 2, nil)
-		x := &c15World{w: w, seen: map[string]int{}, t: t, rec: rec}
-		// counters start where the case says (as an imported genesis could)
-		for chain := 0; chain < 2; chain++ {
-			k := w.App(chain).IBCKeeper
-			k.ClientKeeper.SetNextClientSequence(w.Ctx(chain), h.Base[0])
-			k.ConnectionKeeper.SetNextConnectionSequence(w.Ctx(chain), h.Base[1])
-			k.ChannelKeeper.SetNextChannelSequence(w.Ctx(chain), h.Base[2])
-			w.Block(chain, 1)
-		}
-		for i, op := range h.Ops {
-			p, s := op.P%2, op.Side%2
-			switch op.K {
-			case "client":
-				ids := x.deliver(i, s, "create-client", x.msgCreateTM(s, op.Bad))
-				if c := c15First(ids, "client"); c != "" {
-					x.ends[p][s].Client = c
-				}
-			case "solo":
-				x.deliver(i, s, "create-solomachine", x.msgCreateSolo(s, op.Bad))
-			case "conninit":
-				if op.Bad == 0 {
-					x.ensureClient(i, p, 0)
-					x.ensureClient(i, p, 1)
-				}
-				ids := x.deliver(i, s, "conn-open-init", x.msgConnInit(p, s, op.Bad))
-				if c := c15First(ids, "connection"); c != "" {
-					x.ends[p][s].Conn = c
-				}
-			case "conntry":
-				if op.Bad == 0 || x.ends[p][1-s].Conn == "" {
-					x.ensureConnInit(i, p, 1-s)
-				}
-				ids := x.deliver(i, s, "conn-open-try", x.msgConnTry(p, s, op.Bad))
-				if c := c15First(ids, "connection"); c != "" {
-					x.ends[p][s].Conn = c
-				}
-			case "connfinish":
-				x.connFinish(p, s)
-			case "chaninit":
-				if op.Bad == 0 {
-					x.ensureConnInit(i, p, s)
-				}
-				ids := x.deliver(i, s, "chan-open-init", x.msgChanInit(p, s, op.Bad))
-				if c := c15First(ids, "channel"); c != "" {
-					x.ends[p][s].Chan = c
-				}
-			case "chantry":
-				if x.ensureConnOpen(i, p) {
-					// the counterparty end needs a channel in INIT for an honest TRY
-					ids := x.deliver(i, 1-s, "chan-open-init(prereq)", x.msgChanInit(p, 1-s, 0))
-					if c := c15First(ids, "channel"); c != "" {
-						x.ends[p][1-s].Chan = c
-					}
-				}
-				ids := x.deliver(i, s, "chan-open-try", x.msgChanTry(p, s, op.Bad))
-				if c := c15First(ids, "channel"); c != "" {
-					x.ends[p][s].Chan = c
-				}
-			case "combo":
-				// several creations in one transaction; with Bad != 0 the last message fails and
-				// the whole transaction (including the counters bumped by the first ones) is reverted
-				msgs := []sdk.Msg{x.msgCreateTM(s, 0), x.msgCreateSolo(s, 0)}
-				if x.ends[p][s].Client != "" && x.ends[p][1-s].Client != "" {
-					msgs = append(msgs, x.msgConnInit(p, s, 0))
-				}
-				if op.Bad != 0 {
-					msgs = append(msgs, x.msgConnInit(p, s, 1))
-				}
-				ids := x.deliver(i, s, "multi-msg", msgs...)
-				if c := c15First(ids, "client"); c != "" {
-					x.ends[p][s].Client = c
-				}
-				if c := c15First(ids, "connection"); c != "" {
-					x.ends[p][s].Conn = c
-				}
-			default:
-				vx.Harnessf("unknown op %q", op.K)
-			}
-		}
-		// non-trivial: a failed creation between two successful ones
-		firstOK, failAfter, okAfterFail := false, false, false
-		for _, ok := range x.outcomes {
-			switch {
-			case ok && failAfter:
-				okAfterFail = true
-			case ok:
-				firstOK = true
-			case firstOK:
-				failAfter = true
-			}
-		}
-		kinds := map[string]bool{}
-		for k := range x.seen {
-			kinds[k[:strings.Index(k, "/")]] = true
-		}
-		for k := range map[string]bool{"client": true, "connection": true, "channel": true} {
-			if kinds[k] {
-				rec.Class("generated-%s-ids", k)
-			}
-		}
-		if okAfterFail {
-			rec.Class("failure-between-successes")
-		}
-		rec.Add("identifiers_generated", int64(x.ids))
-		rec.NonTrivialIf(okAfterFail && x.ids >= 3)
-	}
-}
-
-func TestC15History(t *testing.T) {
-	vx.Check(t, vx.Prop[c15Hist]{
-		ID:        "C15",
-		Rule:      "stateful: 2 real chains whose next client/connection/channel sequences start at a drawn base (0 .. 2^64-1000, incl. 19/20-digit ranges); 8-22 ops of create-client (tendermint / solomachine), conn-open-init/try, conn ack+confirm, chan-open-init/try and multi-message transactions, 1/3 of them made to fail (bad client state, unknown client, corrupted proof, unknown counterparty, unbound port, last message of a multi-msg tx failing); identifiers are read from the events of successful transactions. non-trivial = >=3 identifiers generated and at least one failed creation between two successful ones; distinct by full history",
-		MinNTFrac: 0.5,
-		Gen:       genC15Hist,
-		Run:       runC15Hist(t),
 	})
 }
